@@ -14,7 +14,7 @@ from harness.hutil import *
 from harness.c06 import leaf, fees_leaf, query, input_leaf, ada, builtin, coerce, compiler_op, out, inp, walk_unresolved
 
 CRATES = ["tx3-tir", "tx3-cardano"]
-ASSUMPTIONS = ["C07: 7 templates (asset arithmetic over an input and fees, time/slot built-ins on a parameter, parameterised asset name under +, datum of an input without datum under -, indexed list, script address, nested query); schedules = the 12 stage orders with args before compiler-ops x 16 reduce placements; min_utxo (depends on the previous body) excluded"]
+ASSUMPTIONS = ["C07: 8 templates (asset arithmetic over an input and fees, time/slot built-ins on a parameter, parameterised asset name under +, datum of an input without datum under -, indexed list, script address, nested query); schedules = the 12 stage orders with args before compiler-ops x 16 reduce placements; min_utxo (depends on the previous body) excluded"]
 
 STAGES = ("args", "inputs", "fees", "compiler")
 ORDERS = [p for p in itertools.permutations(STAGES) if p.index("args") < p.index("compiler") and p.index("inputs") < p.index("compiler") or False]
@@ -36,6 +36,7 @@ def templates(T):
     t["time_slot"] = mk_tx(T, validity=some(T.st("Validity", since=compiler_op(T, "ComputeTipSlot"), until=compiler_op(T, "ComputeTimeToSlot", P()))),
                            outputs=[out(T, datum=compiler_op(T, "ComputeSlotToTime", builtin(T, "Add", P(), T.num(10))))])
     t["asset_name_param"] = mk_tx(T, mints=[T.st("Mint", amount=builtin(T, "Add", T.assets([T.asset(pol, bytes_leaf(T, "token"), T.num(1))]), T.assets([T.asset(pol, T.bytes([0x41]), Q())])), redeemer=T.none())])
+    t["asset_name_const_operand"] = mk_tx(T, mints=[T.st("Mint", amount=builtin(T, "Sub", builtin(T, "Add", T.assets([T.asset(pol, bytes_leaf(T, "token"), T.num(3))]), T.assets([T.asset(pol, T.bytes([0x41]), T.num(5))])), T.assets([T.asset(T.none(), bytes_leaf(T, "token"), T.num(1))])), redeemer=T.none())])
     t["datumless_input"] = mk_tx(T, inputs=[inp(T, "vault")], outputs=[out(T, datum=builtin(T, "Sub", coerce(T, "IntoDatum", input_leaf(T, "vault")), P()))])
     t["indexed_list"] = mk_tx(T, outputs=[out(T, datum=builtin(T, "Property", T.list([P(), T.num(2), builtin(T, "Negate", Q())]), T.num(2)))])
     t["script_address"] = mk_tx(T, outputs=[out(T, address=compiler_op(T, "BuildScriptAddress", bytes_leaf(T, "token")), amount=builtin(T, "Add", ada(T, P()), fees_leaf(T)))])
@@ -169,7 +170,7 @@ def _h(name, fn, bounds, tier="quick", **kw):
     return d
 
 
-TNAMES = ["asset_math", "time_slot", "asset_name_param", "datumless_input", "indexed_list", "script_address", "nested_query"]
+TNAMES = ["asset_math", "time_slot", "asset_name_param", "asset_name_const_operand", "datumless_input", "indexed_list", "script_address", "nested_query"]
 HARNESSES = [_h("c07_" + t, (lambda t: lambda ctx, tier, seed: h_schedules(ctx, tier, seed, t))(t),
                 "template %s; stage orders with args before compiler-ops x reduce placements (seeded sample of <= 6 x <= 5 in quick, all 12 x 16 in thorough); p, q < 2^40, fee < 2^32, lovelace < 2^40 symbolic; input with/without datum" % t,
                 max_paths=100000, time_limit=1500) for t in TNAMES]
